@@ -76,7 +76,7 @@ def run(module, cfg=None, workers=1, env=None, args=(), timeout=3600, heap="4g",
                 f.write(cfg_text)
         else:
             cfg_path = os.path.join(SPEC_DIR, cfg if cfg else module + ".cfg")
-        cmd = ["java", "-XX:+UseParallelGC", "-Xmx" + heap, "-Xss16m",
+        cmd = ["java", "-XX:+UseSerialGC" if workers == 1 else "-XX:+UseParallelGC", "-Xmx" + heap, "-Xss16m",
                "-cp", JAR, "tlc2.TLC", "-config", cfg_path, "-metadir", meta,
                "-workers", str(workers), "-noGenerateSpecTE", "-maxSetSize", "50000000"]
         if not deadlock:
